@@ -15,6 +15,13 @@ use vcore::report::Report;
 use vcore::run::{guard, panic_sig, Ctx};
 use vcore::sqlite::{Db, SqlVal};
 
+/// the abstract types SQLite's renderer accepts, plus a custom type (its name is the declared type)
+fn lite_types() -> Vec<Ty> {
+    let mut v = sqlite_types();
+    v.push(Ty::Custom("geometry".into()));
+    v
+}
+
 /// SQLite's five affinity rules applied to a declared type name.
 fn affinity_of_decl(decl: &str) -> Aff {
     let u = decl.to_ascii_uppercase();
@@ -173,6 +180,13 @@ fn check_table(chk: &Chk, rep: &mut Report, db: &Db, t: &Tbl, model: &Model, sql
             rep.count("exact_integer_types_checked", 1);
             if !decl.eq_ignore_ascii_case("integer") {
                 chk.viol(rep, "R.affinity", format!("{} is not declared `integer` under option-sqlite-exact-column-type", ty_label(&c.ty)), json!({"column": c.name, "declared_type": decl, "sql": sql}));
+                return false;
+            }
+        }
+        if let Ty::Custom(w) = &c.ty {
+            rep.count("custom_types_checked", 1);
+            if decl != *w {
+                chk.viol(rep, "R.affinity", "a custom type is not declared under its own name".into(), json!({"column": c.name, "declared_type": decl, "custom": w, "sql": sql}));
                 return false;
             }
         }
@@ -565,7 +579,7 @@ fn gen_col(rng: &mut Rng, name: &str, ty: Ty, allow_pk: bool, others: &[String])
 }
 
 fn gen_table(rng: &mut Rng, name: &str, existing: &[Tbl]) -> Tbl {
-    let types = sqlite_types();
+    let types = lite_types();
     let ncols = 1 + rng.below(6);
     let mut t = Tbl { name: name.into(), if_not_exists: rng.chance(1, 5), ..Default::default() };
     let mut have_pk = false;
@@ -709,7 +723,7 @@ fn run_history_inner(ctx: &Ctx, rep: &mut Report, n: u64, rng: &mut Rng, single:
                 0 | 1 => {
                     // ADD COLUMN (SQLite: no PK/UNIQUE; NOT NULL needs a non-null literal default)
                     let cname = format!("n{}_{}", model.tables[ti].cols.len(), rng.below(100000));
-                    let ty = rng.pick(&sqlite_types()).clone();
+                    let ty = rng.pick(&lite_types()).clone();
                     let mut specs = vec![];
                     if rng.coin() {
                         let d = match random_default(rng, &ty) {
@@ -902,7 +916,7 @@ fn run_history_inner(ctx: &Ctx, rep: &mut Report, n: u64, rng: &mut Rng, single:
 
 pub fn check(ctx: &Ctx, rep: &mut Report) {
     // (1) bounded-exhaustive: every type x every ordered pair of column specs (single-column tables)
-    let types = sqlite_types();
+    let types = lite_types();
     let spec_pool: Vec<CS> = vec![
         CS::NotNull,
         CS::Null,
